@@ -76,6 +76,18 @@ func (a *Analysis) CheckC12(rep *Report) {
 					continue
 				}
 				r0, r1 := stripIface(p.Ret[0]), p.Ret[1]
+				if isHit && defensiveNilArm(p) {
+					// "registered factory is nil" / "factory returned nil": cannot happen when every registration is a
+					// constructor of a fresh value (T1-factory-fresh); such an arm must still report an error
+					allFresh := true
+					for _, r := range t.Regs {
+						if !r.Fresh {
+							allFresh = false
+						}
+					}
+					rep.Ob("T2-defensive-arm-is-error", name, allFresh && r0.IsNilConst() && nilness(r1) == +1, a.P.Pos(lf.Pos()), "the lookup tests the registered factory or its result for nil and does not return (nil, error) there")
+					continue
+				}
 				if isHit {
 					hit++
 					okv := r0.Op == "dyncall" && len(r0.Args) > 0 && r0.Args[0].Op == "lookup" && tableName(r0.Args[0].Args[0]) == t.Name && stripCT(r0.Args[0].Args[1]).Op == "param"
@@ -197,4 +209,27 @@ func (a *Analysis) tableByName(n string) *Table {
 		}
 	}
 	return nil
+}
+
+// defensiveNilArm: the path is taken because the looked-up factory, or what it returned, compared equal to nil.
+func defensiveNilArm(p *Path) bool {
+	for _, c := range p.Conds {
+		v := c.V
+		if v.Op != "binop" || (v.Name != "==" && v.Name != "!=") || len(v.Args) != 2 || (v.Name == "==") != c.Taken {
+			continue
+		}
+		for side := 0; side < 2; side++ {
+			if !v.Args[1-side].IsNilConst() {
+				continue
+			}
+			x := stripIface(stripCT(v.Args[side]))
+			if x.Op == "dyncall" && len(x.Args) > 0 {
+				x = stripCT(x.Args[0])
+			}
+			if x.Op == "lookup" {
+				return true
+			}
+		}
+	}
+	return false
 }
